@@ -33,16 +33,16 @@ code only by exact reproduction of real streams (correspondence) on the generate
 | # | phrase | theorems | mark |
 |---|---|---|---|
 | 1 | "for any source, the highlighter's event stream" | every merge theorem below quantifies over ALL capture tables / layer tables of the model (`∀ caps`, `∀ defs top n`, `∀ cx`); the real parser + query engine that produce those tables are NOT modelled (C01–C16 territory) | model; real streams judged only (`judgeEvents` on every real stream: H, M, N, K, F, C, S cases) |
-| 2 | "source spans that are contiguous, increasing and cover the text from first to last byte exactly once" | `merge_wellformed_partial` (one layer), `merge_multi_wellformed` / `merge_multi_wellformed_partial` (several layers, injections creating layers), `merge_full_wellformed` (layers + locals + `injection_for_match`); `judgeEvents n evs = true` says exactly: spans contiguous from 0 to n, non-empty, increasing | model; premises `capsIn`/`defsIn` (captures inside the source) and `refsUp` (injections create later table entries) are checked on every real case, never failed |
+| 2 | "source spans that are contiguous, increasing and cover the text from first to last byte exactly once" | `merge_wellformed_partial` (one layer), `merge_locals_wellformed_partial` (one layer WITH the locals branch, `Round11.lean`), `merge_multi_wellformed` / `merge_multi_wellformed_partial` (several layers, injections creating layers), `merge_full_wellformed` (layers + locals + `injection_for_match`); `judgeEvents n evs = true` says exactly: spans contiguous from 0 to n, non-empty, increasing | model; premises `capsIn`/`defsIn` (captures inside the source) and `refsUp` (injections create later table entries) are checked on every real case, never failed |
 | 3 | "interleaved with start/end events that are properly nested" | syntactic nesting (never an End without an open Start): same theorems as 2.  Nesting WITH SPAN IDENTITY ("each End closes the span that ends there, which is the most recently opened one"): `merge_stack_spec_partial` (one layer); several layers INCLUDING layers created during the run: `merge_well_nested_dynamic_partial` (every prefix of the run), `merge_well_nested_run_partial` (the whole run of `mergeLayersR`: finishes, every End passes, stack empty at the end), premise `dynNice` (decidable); static corollary `merge_well_nested_partial`; witnesses `well_nested_needs_crossNice`, `well_nested_needs_laminar`, `well_nested_equal_depth_tie`, `well_nested_needs_injTieOk`, `well_nested_needs_closureNodup` | model, partial (premise holds on 165/303 real multi-layer cases of the quick tier); real streams judged (`judgeStacks`) on the applicable ones |
 | 4 | "and all closed at the end" | same theorems as 2 (`judgeEvents` requires depth 0 after the last event) | model |
-| 5 | "spans produced by an injected language stay inside the injection's content" | `intersect_ranges_spec`, `injected_content_inside` (every computed content range is non-empty, inside a parent range, inside a content node, clear of children unless include-children), `injection_language_captured`; that a layer's captures lie inside its included ranges is a fact about parsing with included ranges (C13) | ranges: proved for the port (compared with the real private function through `hooks/C17-reexport.diff` when applied); SPANS inside content: judged only (`judgeInjected`, every real stream with injections) |
+| 5 | "spans produced by an injected language stay inside the injection's content" | `intersect_ranges_spec`, `injected_content_inside` (every computed content range is non-empty, inside a parent range, inside a content node, clear of children unless include-children), `intersect_ranges_ordered`, `injection_ranges_ordered` (`Round11b.lean`: the computed list is ordered and pairwise disjoint for content nodes in document order, ANY parent ranges), `injection_language_captured`; that a layer's captures lie inside its included ranges is a fact about parsing with included ranges (C13) | ranges: proved for the port (compared with the real private function through `hooks/C17-reexport.diff` when applied); SPANS inside content: judged only (`judgeInjected`, every real stream with injections) |
 | 6 | "the HTML renderer's output, with tags removed and entities decoded, is the source text up to its documented normalisations" | `render_roundtrip_gen` (ANY event stream, any decoder: html text = concatenated decoded chunks without CR + final newline rule), `render_roundtrip_fixed`, `render_roundtrip_partial`, `render_roundtrip_whole_fixed`, `render_reproduces_source` (valid UTF-8: html text = source without CRs + newline rule), `render_total_of_wellFormed` | model of `HtmlRenderer`; `_partial` for the iterator of the tree before `fixes/C17-lossy-truncated.diff` (witnesses `render_roundtrip_witness_truncated`, `render_roundtrip_witness_final_invalid`); real HTML judged on every R/H/C case (`judgeHtml`) |
 | 6b | the same PER LINE, as read through `HtmlRenderer::lines()` / `line_offsets` (the observation point "HtmlRenderer output"; the CLI prints the html line by line) | `render_line_offsets` (model: `line_offsets` = exactly the line starts of the html — 0 and the byte after every newline but a final one — and the html ends with a newline; hence the lines concatenate to the whole and each ends with a newline; hypothesis: the attribute callback writes no newline); per-line tags / re-opening / text with CR markers: no theorem | model; real output judged on every rendering (`judgeLines`: offsets, line-newline, line-tags, line-reopen, line-text), genuine finding `C17-cr-before-cr-unstyled` |
 | 7 | "carriage returns dropped" | part of `judgeHtml`/`textOf` (`filter (· ≠ 13)`) in the theorems of 6; `normalize_whole` | model |
 | 8 | "invalid UTF-8 replaced" | `lossyFixed_eq_spec` (∀ bytes, iterator after the fix = `String::from_utf8_lossy` spec), `lossy_eq_spec_partial`, `lossyV_diag`, witnesses `lossy_drops_truncated_tail`, `lossy_drops_final_replacement`, `lossySpec_valid` | model of `LossyUtf8`, compared byte for byte with the real iterator on every L case; `lossySpec` is my port of the std spec, compared with the real `from_utf8_lossy` on every L case |
 | 9 | "a final newline added" | `judgeHtml` alternatives in 6 (`t ++ "\n"` always, `t` only if it ends in a newline) | model; boundary convention below |
-| 10 | "a name resolved as a local reference is highlighted like its definition" | `local_ref_like_def`, `findDef_newest` (one layer) | model, partial (see gaps); real streams judged (`judgeLocals`) |
+| 10 | "a name resolved as a local reference is highlighted like its definition" | `local_ref_like_def`, `findDef_newest` (one layer, the register `reference_highlight`); EVENT level (`Round11.lean`): `merge_locals_ref_event`, `merge_locals_def_event`, `merge_locals_ref_like_def_events` (single-layer port), `full_ref_event`, `full_def_event`, `full_ref_event_run` (end-to-end multi-layer model, any state) | model, partial (see gaps); real streams judged (`judgeLocals`) |
 | 11 | events in offset order across layers (mechanism anchor "event emission in offset order across layers") | `sort_key_order`, `sort_layers_restores_order`, `insert_layer_keeps_order`, `merge_layers_stay_ordered_partial`, `initial_layers_ordered`, `merge_layers_stay_ordered`, `merge_events_in_place`; witness `initial_layers_unordered_witness` (set-up before `fixes/C17-initial-layer-order.diff`) | model |
 | 12 | "all recognised-name lists", "highlighter reuse across documents" (quantifier) | no theorem | judged only (names modes 0–3 in H/F cases; histories over one `Highlighter`, S cases, each stream judged and compared with a fresh highlighter) |
 
@@ -92,7 +92,14 @@ code only by exact reproduction of real streams (correspondence) on the generate
   hypotheses: every scope above the defining one inherits and does not define the name, and no
   definition capture is pending on the same node (`defP = false`).  "highlighted like its
   definition" is proved as "takes the highlight STORED for the definition"; that the stored
-  highlight is the one the definition itself was emitted with is judged only (`judgeLocals`).
+  highlight is the one the definition itself was emitted with is now a theorem too
+  (`merge_locals_def_event`, `full_def_event`: the `Start` of the definition node carries `hh` and `hh`
+  is what is stored), and `merge_locals_ref_event` / `full_ref_event` say the reference's `Start`
+  EVENT carries the stored highlight, for ANY state of the single-layer / end-to-end multi-layer
+  model; shape: the node's captures are [definition | reference, one highlight capture, later
+  patterns].  What links the two steps over ARBITRARY captures in between (the definition stays the
+  newest admissible one of its scope) is proved only for the adjacent shape
+  (`merge_locals_ref_like_def_events`); in general still judged (`judgeLocals`).
   `local.definition-value` never takes effect in the real code (value range always 0..0): observation
   in notes, outside the text.
 * **12** is judged only.
